@@ -194,7 +194,7 @@ def r15d(chk, rid='R15.d'):
         chk.ob(rid, UTIL, f'_Namespaces.{name}', 'keeps no state of its own', not w, f'writes {w}: a cached mapping can disagree with the rules')
     g = ci.getters.get('namespaces')
     src = ast.unparse(g) if g is not None else ''
-    chk.ob(rid, UTIL, '_Namespaces.namespaces', 'computed from the reversed rule list, one entry per URI', 'reversed(self.parentStyleSheet.cssRules)' in src and 'unique_everseen' in src and "attrgetter('namespaceURI')" in src, src[:200], shape=True)
+    # what _Namespaces.namespaces computes is decided by evaluation in R15.h (together with the clean-up)
     src = ast.unparse(ci.methods['__setitem__'])
     chk.ob(rid, UTIL, '_Namespaces.__setitem__', 'declares through insertRule(..., inOrder=True) or the rule setters', 'self.parentStyleSheet.insertRule(' in src and 'inOrder=True' in src and 'rule.namespaceURI = namespaceURI' in src, '', shape=True)
     src = ast.unparse(ci.methods['__delitem__'])
@@ -245,7 +245,7 @@ def r15g(chk, rid='R15.g'):
 
 
 def r15h(chk, rid='R15.h'):
-    chk.rule(rid, 'the clean-up after a namespace edit, decided by evaluation: CSSStyleSheet._cleanNamespaces is evaluated on its syntax tree - with the effective mapping computed by _Namespaces.namespaces, evaluated from util.py - from every list of @namespace rules that can arise - a list of up to two rules with one rule per prefix and per URI (prefixes p, q and the default; two URIs), into which one further declaration was inserted at any position, mixed with other rules: afterwards no prefix and no URI is declared twice, the remaining @namespace rules are exactly the pairs of the mapping, and nothing but @namespace rules was removed')
+    chk.rule(rid, 'the clean-up after a namespace edit, decided by evaluation: CSSStyleSheet._cleanNamespaces is evaluated on its syntax tree - with the effective mapping computed by _Namespaces.namespaces, evaluated from util.py - from every list of @namespace rules that can arise - a list of up to two rules with one rule per prefix and per URI (prefixes p, q and the default; two URIs), into which one further declaration was inserted at any position, mixed with other rules: afterwards no prefix and no URI is declared twice, the remaining @namespace rules are exactly the pairs of the mapping, an existing declaration is given up only for a new declaration of the same URI, and nothing but @namespace rules was removed')
     chk.assume('R15.h: deleteRule is modelled as plain removal (its refusal for namespaces in use is R15.b); pre-states are all lists of up to two declarations satisfying the invariant plus one inserted declaration')
     import itertools
     import operator
@@ -287,8 +287,8 @@ def r15h(chk, rid='R15.h'):
                 if new in base:
                     continue  # insertRule does not insert a pair that is already declared
                 for pos in range(k + 1):
-                    combos.append(tuple(base[:pos]) + (new,) + tuple(base[pos:]))
-    for combo in sorted(set(combos)):
+                    combos.append((tuple(base[:pos]) + (new,) + tuple(base[pos:]), pos))
+    for combo, newpos in sorted(set(combos)):
         if True:
             for style_at in (None, 0):
                 rules = Rules(Obj(type=10, prefix=p, namespaceURI=u, tag=f'{p}={u}#{i}', **K) for i, (p, u) in enumerate(combo))
@@ -329,6 +329,15 @@ def r15h(chk, rid='R15.h'):
                     probs.append(f'mapping {sorted(mapping().items())} differs from the rules {sorted(left)}')
                 if [r.tag for r in rules if r.type != 10] != [t for t in before if t == 'style']:
                     probs.append('another rule was removed')
+                # a declaration that was there before goes only when the new one declares the same URI again
+                newp, newu = combo[newpos]
+                # (decided for declarations in front of the inserted one; what should happen to a declaration
+                # *behind* a newly inserted one with the same prefix is not settled by the property - CSS lets the
+                # later one win, the code keeps the earlier one)
+                gone = [(p_, u_) for i_, (p_, u_) in enumerate(combo) if i_ < newpos and f'{p_}={u_}#{i_}' not in [r.tag for r in rules]]
+                wrongly = [x for x in gone if x[1] != newu]
+                if wrongly:
+                    probs.append(f'the existing declaration {wrongly} was removed in favour of the inserted {newp}={newu}: names written with that prefix lose their namespace')
                 if probs:
                     bad.append(f'{before} -> {[r.tag for r in rules]}: ' + '; '.join(probs))
     chk.extra['clean_namespace_cases'] = n
